@@ -3,7 +3,7 @@
    absorb an adjacent operator; keywords are recognised only as whole words".
    Spec: Spec/PrecGrammar.v (stoken, spell, wf_tok).  Proofs: Proofs/SyntaxLex.v. *)
 From JQ Require Import Base.Bytes Syntax.Token Syntax.Lexer Gen.Generated.
-From JQ Require Import Spec.PrecGrammar Proofs.SyntaxLex.
+From JQ Require Import Syntax.Ast Syntax.Parser Spec.PrecGrammar Proofs.SyntaxLex Proofs.Syntax.
 Open Scope nat_scope.
 
 (* ---- numbers: digits followed by '-', '+' or '.x' (x not a digit) give the number
@@ -153,4 +153,27 @@ Example lex_render_layout_ex :
   gaps_ok true items = true /\
   map ttag (fst (lex_all (lay items [32%N]))) = [TIdent; TMinus; TMinus; TNum; TIs; TStr; TEOF] /\
   snd (lex_all (lay items [32%N])) = None.
+Proof. vm_compute. repeat split. Qed.
+
+(* ---- and at the level of the parser: re-laying out the tokens of an expression with any
+   horizontal white space gives the same (position-free) tree as the one-space layout *)
+Theorem expr_layout_insensitive : forall force e items trail, wf_sexpr e = true ->
+  map snd items = print force 1 e -> gaps_ok true items = true -> forallb is_hws trail = true ->
+  exists e1 st1 e2 st2,
+    parse_expression_src (lay items trail) = POk e1 st1 /\
+    parse_expression_src (text_of (print force 1 e)) = POk e2 st2 /\
+    strip (lay items trail) e1 = strip (text_of (print force 1 e)) e2.
+Proof. exact Syntax.expr_layout_insensitive. Qed.
+Print Assumptions expr_layout_insensitive.
+
+Example expr_layout_insensitive_ex :
+  let e := SAssign (SIdent (bs "a")) (SBin TPlus (SIdent (bs "b")) (SStr (bs "x y"))) in
+  let items := [([32%N], KIdent (bs "a")); ([9%N], KFix TEqual); ([32%N], KIdent (bs "b"));
+                ([13%N; 32%N], KFix TPlus); ([32%N], KStr (bs "x y"))] in
+  wf_sexpr e = true /\ map snd items = render e /\ gaps_ok true items = true /\
+  match parse_expression_src (lay items []), parse_expression_src (text_of (render e)) with
+  | POk e1 _, POk e2 _ => strip (lay items []) e1 = strip (text_of (render e)) e2 /\
+                          strip (lay items []) e1 = Some e
+  | _, _ => False
+  end.
 Proof. vm_compute. repeat split. Qed.
